@@ -68,7 +68,7 @@ def worker(case):
     cdir = case["dir"]
     os.makedirs(cdir, exist_ok=True)
     keep = False
-    cid = core.h8([case["flavour"], case["n"], case["rounds"], case["hseed"]])
+    cid = core.h8([case["flavour"], case["n"], case["rounds"], case["hseed"], case.get("log")])
     stats = {"evaluations": 1}
     try:
         fx = os.path.join(cdir, "fx")
@@ -83,7 +83,7 @@ def worker(case):
             os.makedirs(wd, exist_ok=True)
             env = core.san_env(wd)
             env["TSAN_OPTIONS"] = core.TSAN_OPTS + ":log_path=" + os.path.join(wd, "san")
-            r = core.run_proc([case["bin"], str(case["n"]), str(case["rounds"]), str(case["hseed"]), wd, mode, fx], wd, env=env, cpu=600, wall=3000)
+            r = core.run_proc([case["bin"], str(case["n"]), str(case["rounds"]), str(case["hseed"]), wd, mode, fx] + (["log"] if case.get("log") else []), wd, env=env, cpu=600, wall=3000)
             if r.timed_out:
                 return core.verdict(cid, "inconclusive", detail="watchdog (%s)" % mode, case=case)
             if r.rc not in (0, 66):
@@ -118,6 +118,15 @@ def worker(case):
         bad = [ln for k in range(case["n"]) for ln in open(os.path.join(cdir, "ser", "t%d.log" % k)) if " rc=-" in ln and "write" in ln]
         if bad:
             return core.verdict(cid, "inconclusive", detail="serial baseline has failing writes: %s" % bad[:2], case=case)
+        ser_all = "".join(open(os.path.join(cdir, "ser", "t%d.log" % k)).read() for k in range(case["n"]))
+        need = {"multipart download completed": r" mp-download ok=1 rounds=\d+ failed_seen=\d+ missing=0 vd=1 ", "multipart responses were used": r" mp-round \d+ ranges=[2-9]",
+                "a corrupted part was refused": r" corrupt=1 cbfail=1 ", "pinned open accepted": r" pinned v0 .* validate_lead=1 read_lead=1 read_header=1",
+                "wrong pin refused": r" pinned v2 .* read_lead=0 ", "header arrived through the header-write callback": r" header-download ok=1 read_lead=1 read_header=1 "}
+        missing = [k for k, pat in need.items() if not re.search(pat, ser_all)]
+        if missing:
+            return core.verdict(cid, "inconclusive", detail="serial baseline did not exercise: %s" % missing, case=case)
+        for k_ in need:
+            stats["baseline:" + k_] = 1
         stats["overlapping_op_pairs"] = sorted(overlaps(os.path.join(cdir, "par"), case["n"]))
         stats["threads"] = [case["n"]]
         if viols:
@@ -141,8 +150,12 @@ def _kw(pieces, **ov):
 class C19(core.Check):
     prop = "C19"
     flavours = ["tsan", "bundled-tsan"]
-    rule = ("runs of the multi-threaded harness: threads in {2,4,8,16}, 2-3 rounds each of write(none/zstd/dict) + read + validate + random access + copy_chunks + "
-            "find_matching_chunks + missing-range/callback download + malformed opens + name lookups, every thread on its own contexts and files, random yields "
+    rule = ("runs of the multi-threaded harness: threads in {2,4,8,16}, 2-3 rounds each of write(none/zstd/dict; all four checksum types, small chunk maxima) + read + "
+            "validate + random access (content and stored bytes) + copy_chunks + find_matching_chunks + hash table + digest comparison + every getter + step-by-step opens "
+            "with genuine and wrong pins (zck_validate_lead, zck_read_lead, zck_read_header) + single-range downloads + multipart downloads through zck_header_cb / "
+            "zck_write_chunk_cb with per-thread boundaries incl. one corrupted part + header download through zck_write_zck_header_cb + malformed opens + name lookups; "
+            "half of the runs with a process-wide log callback at DEBUG level set once before the threads start (messages delivered per thread are part of the "
+            "serial-equality log); every thread on its own contexts and files, random yields "
             "between API calls; OpenSSL and bundled-SHA builds under ThreadSanitizer; each parallel run paired with a serial run of the same programs. "
             "distinct = (build, threads, rounds, seed)")
     assumptions = ["TSan sees only instrumented code (libzck + harness); libzstd/libcrypto internals are not instrumented",
@@ -158,5 +171,5 @@ class C19(core.Check):
         reps = 48 if self.quick else 600
         for i in range(reps):
             fl = "tsan" if i % 3 else "bundled-tsan"
-            out.append({"flavour": fl, "bin": ctx["bins"][fl], "n": [2, 4, 8, 16][i % 4], "rounds": 2 if i % 2 else 3, "hseed": r.randrange(1, 1 << 30)})
+            out.append({"flavour": fl, "bin": ctx["bins"][fl], "n": [2, 4, 8, 16][i % 4], "rounds": 2 if i % 2 else 3, "hseed": r.randrange(1, 1 << 30), "log": (i // 4) % 2 == 1})
         return out
